@@ -57,7 +57,12 @@ def mode_dist(p):
         if np.any(exp[lab, np.arange(N)] > exp.min(axis=0) + 1e-12):
             return {"input": {"x": x.tolist(), "centroids": c.tolist()}, "observed": lab.tolist(), "expected": exp.argmin(axis=0).tolist(),
                     "what": "predicted label is not a nearest centroid"}
-    return search(one)
+    r = search(one)
+    if not r.get("reproduced"):
+        r2 = mode_offsets(p)        # the same entry points on data far from the origin, few and many features (exact integer reference)
+        if r2.get("reproduced"):
+            return r2
+    return r
 
 
 def mode_offsets(p):
@@ -65,11 +70,13 @@ def mode_offsets(p):
     import dask.array as da
     from bob.learn.em import KMeansMachine
     cases = 0
-    for off in (0, 10 ** 4, 10 ** 8):
-        rs = np.random.RandomState(SEED + off % 97)
-        K, D, N = 4, 3, 9
-        cen = (rs.randint(0, 8, size=(K, D)) * 10 + off).astype(float)
-        x = (cen[rs.randint(0, K, size=N)] + rs.randint(-3, 4, size=(N, D))).astype(float)
+    # (offset, features, centroid grid spacing, sample noise): also clusters only a few units apart, far from the origin
+    for off, D, sp, nz in ((0, 3, 10, 3), (10 ** 4, 3, 10, 3), (10 ** 8, 3, 10, 3), (10 ** 8, 6, 10, 3), (10 ** 7, 9, 10, 3), (0, 8, 10, 3),
+                           (10 ** 8, 3, 1, 0), (10 ** 8, 5, 1, 0), (10 ** 8, 6, 1, 0), (10 ** 8, 9, 1, 0), (10 ** 7, 5, 1, 0)):
+        rs = np.random.RandomState(SEED + off % 97 + D + sp)
+        K, N = 4, 9
+        cen = (rs.randint(0, 8 if sp > 1 else 2, size=(K, D)) * sp + off).astype(float)
+        x = (cen[rs.randint(0, K, size=N)] + rs.randint(-nz, nz + 1, size=(N, D))).astype(float)
         exact = np.array([[sum((int(c[d]) - int(xs[d])) ** 2 for d in range(D)) for xs in x] for c in cen], dtype=float)
         m = KMeansMachine(K)
         m.centroids_ = cen
@@ -82,7 +89,13 @@ def mode_offsets(p):
                         "what": "squared distances of %s input differ from the exact values at offset %g" % (nm, off)}
             lab = np.asarray(m.predict(data))
             if np.any(exact[lab, np.arange(N)] != exact.min(axis=0)):
-                return {"reproduced": True, "cases": cases, "input": {"offset": off, "variant": nm}, "what": "predicted label is not a nearest centroid"}
+                return {"reproduced": True, "cases": cases, "input": {"offset": off, "variant": nm, "n_features": D, "x": x.tolist(), "centroids": cen.tolist()},
+                        "observed": lab.tolist(), "expected": exact.argmin(axis=0).tolist(), "what": "predicted label is not a nearest centroid"}
+            for i in range(3):
+                one_lab = int(np.asarray(m.predict(x[i])).reshape(-1)[0])
+                if exact[one_lab, i] != exact[:, i].min():
+                    return {"reproduced": True, "cases": cases, "input": {"offset": off, "n_features": D, "x": x[i].tolist(), "centroids": cen.tolist()},
+                            "observed": one_lab, "what": "predicted label of a single sample is not a nearest centroid"}
         for i in range(3):
             for data in (x[i], da.from_array(x[i], chunks=(D,))):
                 got = np.asarray(m.transform(data)).reshape(-1)
@@ -190,7 +203,7 @@ def mode_fit_loop(p):
     def one(seed):
         rs = np.random.RandomState(seed)
         K = rs.randint(2, 9)
-        off = float(rs.choice([1.0, 1e-4, 1e3]))
+        off = float(rs.choice([1.0, 1e-4, 1e3, 1e-18, 1e-30, 1e12]))      # the rule is RELATIVE: any magnitude of the criterion (data in tiny or huge units)
         L = list(off * (1 + np.cumsum(rs.uniform(0.0, 1.0, size=12))[::-1] * rs.choice([1e-3, 1.0, 2e-5])))
         L = [None] + L
         if seed % 2:
@@ -233,6 +246,35 @@ def mode_fit_loop(p):
                     "observed": {"iterations": len(calls), "criterion": m.average_min_distance}, "expected": {"iterations": exp, "criterion": L[exp]},
                     "what": "fit ran %d iterations, the stated rule gives %d" % (len(calls), exp)}
     return search(one, 200)
+
+
+def mode_affine(p):
+    """k-means centroids follow any rotation, uniform scaling and translation of the data (and of the initial centroids);
+    a cluster that attracts no sample included: whatever the code leaves there must be the same in both coordinate systems
+    (undefined = NaN in both counts as the same)"""
+    from bob.learn.em import KMeansMachine
+
+    def one(seed):
+        rs = np.random.RandomState(seed)
+        K, D = rs.randint(2, 4), rs.randint(1, 4)
+        X = np.vstack([rs.normal(size=(6, D)) * 0.5 + c for c in rs.normal(size=(K, D)) * 4])
+        init = X[rs.choice(len(X), K, replace=False)].copy()
+        if seed % 2:
+            init[-1] = X.mean(axis=0) + 50.0          # an initial centroid no sample is nearest to: the cluster stays empty
+        Q, _ = np.linalg.qr(rs.normal(size=(D, D)))
+        sc, t = float(rs.choice([0.5, 3.0, 1e-2])), rs.normal(size=D) * rs.choice([1.0, 30.0])
+        f = lambda A_: sc * (A_ @ Q) + t
+        for mx in (1, 2, 5):
+            with np.errstate(all="ignore"):
+                a = KMeansMachine(K, init_method=init.copy(), max_iter=mx, convergence_threshold=None).fit(X)
+                b = KMeansMachine(K, init_method=f(init), max_iter=mx, convergence_threshold=None).fit(f(X))
+            ca, cb = f(np.asarray(a.centroids_)), np.asarray(b.centroids_)
+            if not np.array_equal(np.isnan(ca), np.isnan(cb)) or not np.allclose(np.nan_to_num(ca), np.nan_to_num(cb), rtol=1e-7, atol=1e-7 * (1 + abs(t).max())):
+                return {"input": {"x": X.tolist(), "init_centroids": init.tolist(), "rotation": Q.tolist(), "scale": sc, "shift": t.tolist(), "max_iter": mx},
+                        "observed": cb.tolist(), "expected": ca.tolist(),
+                        "what": "k-means centroids trained on rotated/scaled/shifted data are not the transformed centroids (max_iter=%d%s)"
+                                % (mx, ", one initial centroid attracts no sample" if seed % 2 else "")}
+    return search(one, 40)
 
 
 def mode_empty_cluster(p):
